@@ -962,3 +962,72 @@ func isLenCallOf(v ssa.Value, pred func(ssa.Value) bool) bool {
 	}
 	return false
 }
+
+// loopExitsOnlyAtHeader: in is inside a loop (the strongly connected component of its block); the
+// loop is left only from its header (the block entered from outside), i.e. by the loop condition —
+// no break, return or goto out of the body. Blocks ending in a panic are not exits.
+func loopExitsOnlyAtHeader(in ssa.Instruction) (bool, string) {
+	b := in.Block()
+	fwd := map[*ssa.BasicBlock]bool{}
+	var walk func(x *ssa.BasicBlock, m map[*ssa.BasicBlock]bool, succ bool)
+	walk = func(x *ssa.BasicBlock, m map[*ssa.BasicBlock]bool, succ bool) {
+		next := x.Succs
+		if !succ {
+			next = x.Preds
+		}
+		for _, n := range next {
+			if !m[n] {
+				m[n] = true
+				walk(n, m, succ)
+			}
+		}
+	}
+	walk(b, fwd, true)
+	if !fwd[b] {
+		return false, "is not a loop"
+	}
+	bwd := map[*ssa.BasicBlock]bool{}
+	walk(b, bwd, false)
+	scc := map[*ssa.BasicBlock]bool{}
+	for x := range fwd {
+		if bwd[x] {
+			scc[x] = true
+		}
+	}
+	var header *ssa.BasicBlock
+	for x := range scc {
+		for _, pr := range x.Preds {
+			if !scc[pr] {
+				if header != nil && header != x {
+					return false, "has more than one entry"
+				}
+				header = x
+			}
+		}
+	}
+	if header == nil {
+		return false, "has no entry"
+	}
+	for x := range scc {
+		if x == header {
+			continue
+		}
+		for _, sx := range x.Succs {
+			if scc[sx] {
+				continue
+			}
+			if len(sx.Instrs) > 0 {
+				if _, isPanic := sx.Instrs[len(sx.Instrs)-1].(*ssa.Panic); isPanic {
+					continue
+				}
+			}
+			return false, fmt.Sprintf("is left from its body (block %d -> %d) before the list is exhausted", x.Index, sx.Index)
+		}
+		if len(x.Succs) == 0 {
+			if _, isPanic := x.Instrs[len(x.Instrs)-1].(*ssa.Panic); !isPanic {
+				return false, "returns from its body"
+			}
+		}
+	}
+	return true, ""
+}
